@@ -1,6 +1,780 @@
-//! C08 — harness module not built yet.
+//! C08 — factory creation within governance bounds.  One chain with the four factories
+//! (the vending factory once per vending minter code, the open-edition factory once per
+//! open-edition minter code); CreateMinter probes put each request parameter at
+//! bound-1 / bound / bound+1 against the parameters in force (also after sudo updates and
+//! freeze/unfreeze), with none / short / exact / over / wrong-denom / two-coin payments.
+//! Every call is recorded for the Coq model (corr/C08Corr.v) together with the chain's
+//! contract registry and balances afterwards; monitors evaluate the property text.
+use crate::chain::{self, App};
+use crate::util::*;
 use crate::Args;
-pub fn run(_a: &Args) {
-    eprintln!("C08: harness module not built yet");
-    std::process::exit(2);
+use cosmwasm_std::{coin, Addr, Coin};
+use cw_multi_test::Executor;
+use serde::{Deserialize, Serialize};
+use serde_json::{json, Value};
+use std::collections::{BTreeMap, BTreeSet};
+
+const IBC: &str = "ibc/C4CFF46FD6DE35CA4CF4CE031E643C8FDC9BA4B99AE598E9B0ED98FE3A2319F9";
+const S: u64 = 1_000_000_000;
+const CREATOR: &str = "creator";
+const PAYER: &str = "payer";
+
+#[derive(Clone, Copy, Debug, PartialEq, Eq, Serialize, Deserialize)]
+pub enum Kind {
+    Base,
+    Vending,
+    Open,
+    TokenMerge,
+}
+
+/// minter codes a factory kind can be configured with
+const VENDING_CODES: [&str; 6] = [
+    "vending-minter",
+    "vending-minter-featured",
+    "vending-minter-wl-flex",
+    "vending-minter-wl-flex-featured",
+    "vending-minter-merkle-wl",
+    "vending-minter-merkle-wl-featured",
+];
+const OPEN_CODES: [&str; 3] = ["open-edition-minter", "open-edition-minter-wl-flex", "open-edition-minter-merkle-wl"];
+
+#[derive(Clone, Debug, Serialize, Deserialize)]
+pub struct Params {
+    pub frozen: bool,
+    pub fee: u128,
+    pub fee_ibc: bool,
+    pub min_price: u128,
+    pub min_ibc: bool,
+    pub offset: u64,
+    pub max_tokens: u32,
+    pub max_pal: u32,
+    pub airdrop_price: u128,
+}
+impl Default for Params {
+    fn default() -> Self {
+        Params { frozen: false, fee: 5000, fee_ibc: false, min_price: 50, min_ibc: false, offset: 604800, max_tokens: 1000, max_pal: 50, airdrop_price: 0 }
+    }
+}
+
+#[derive(Clone, Debug, Serialize, Deserialize)]
+pub struct Req {
+    pub coll_code_allowed: bool,
+    pub num_tokens: Option<u32>,
+    pub pal: u32,
+    pub price: u128,
+    pub price_ibc: bool,
+    /// start relative to now, in nanoseconds (may be negative)
+    pub start_in: i64,
+    pub end_in: Option<i64>,
+    pub trading_in: Option<i64>,
+    pub nft_ok: bool,
+    pub uri_ok: bool,
+    /// None: no whitelist; Some(active)
+    pub wl: Option<bool>,
+    pub coll_ok: bool,
+    pub funds: Vec<(String, u128)>,
+}
+
+#[derive(Clone, Debug, Serialize, Deserialize)]
+pub struct Case {
+    pub kind: Kind,
+    pub code: usize,
+    pub params: Params,
+    /// sudo updates applied before the call (each a full Params replacing the previous)
+    pub updates: Vec<Params>,
+    pub req: Req,
+}
+
+struct World {
+    app: App,
+    addrs: Ids,
+    denoms: Ids,
+    codes: BTreeMap<String, u64>,
+    n_contracts: u64,
+    source_collection: Option<Addr>,
+}
+
+fn coinv(a: u128, d: &str) -> Value {
+    json!({"amount": a.to_string(), "denom": d})
+}
+fn dn(ibc: bool) -> &'static str {
+    if ibc {
+        IBC
+    } else {
+        NATIVE
+    }
+}
+
+impl World {
+    fn new() -> World {
+        let mut app = chain::new_app();
+        let mut codes = BTreeMap::new();
+        let mut put = |app: &mut App, name: &str, c: Box<dyn cw_multi_test::Contract<cosmwasm_std::Empty>>| {
+            let id = app.store_code(c);
+            codes.insert(name.to_string(), id);
+        };
+        put(&mut app, "vending-minter", chain::vending_minter());
+        put(&mut app, "vending-minter-featured", chain::vending_minter_featured());
+        put(&mut app, "vending-minter-wl-flex", chain::vending_minter_wl_flex());
+        put(&mut app, "vending-minter-wl-flex-featured", chain::vending_minter_wl_flex_featured());
+        put(&mut app, "vending-minter-merkle-wl", chain::vending_minter_merkle_wl());
+        put(&mut app, "vending-minter-merkle-wl-featured", chain::vending_minter_merkle_wl_featured());
+        put(&mut app, "open-edition-minter", chain::open_edition_minter());
+        put(&mut app, "open-edition-minter-wl-flex", chain::open_edition_minter_wl_flex());
+        put(&mut app, "open-edition-minter-merkle-wl", chain::open_edition_minter_merkle_wl());
+        put(&mut app, "token-merge-minter", chain::token_merge_minter());
+        put(&mut app, "base-minter", chain::base_minter());
+        put(&mut app, "vending-factory", chain::vending_factory());
+        put(&mut app, "open-edition-factory", chain::open_edition_factory());
+        put(&mut app, "token-merge-factory", chain::token_merge_factory());
+        put(&mut app, "base-factory", chain::base_factory());
+        put(&mut app, "sg721-base", chain::sg721_base());
+        put(&mut app, "sg721-nt", chain::sg721_nt());
+        put(&mut app, "whitelist", chain::whitelist());
+        put(&mut app, "whitelist-flex", chain::whitelist_flex());
+        for a in [CREATOR, PAYER] {
+            chain::mint_coins(&mut app, a, 1_000_000_000_000, NATIVE);
+            chain::mint_coins(&mut app, a, 1_000_000_000_000, IBC);
+        }
+        let mut addrs = Ids::with_fixed(
+            &[(FOUNDATION, 1), (LAUNCHPAD_DAO, 2), (LIQUIDITY_DAO, 3), (chain::FAIRBURN_POOL, 4), ("#burned", 5)],
+            10,
+        );
+        addrs.id(CREATOR);
+        addrs.id(PAYER);
+        let mut denoms = denom_ids();
+        denoms.id(IBC);
+        World { app, addrs, denoms, codes, n_contracts: 0, source_collection: None }
+    }
+
+    fn minter_code_name(kind: Kind, code: usize) -> &'static str {
+        match kind {
+            Kind::Base => "base-minter",
+            Kind::Vending => VENDING_CODES[code % 6],
+            Kind::Open => OPEN_CODES[code % 3],
+            Kind::TokenMerge => "token-merge-minter",
+        }
+    }
+
+    fn params_json(&self, kind: Kind, code: usize, p: &Params) -> Value {
+        let minter = self.codes[Self::minter_code_name(kind, code)];
+        let allowed = vec![self.codes["sg721-base"]];
+        match kind {
+            Kind::Base => json!({"params": {"code_id": minter, "allowed_sg721_code_ids": allowed, "frozen": p.frozen,
+                "creation_fee": coinv(p.fee, dn(p.fee_ibc)), "min_mint_price": coinv(p.min_price, dn(p.min_ibc)),
+                "mint_fee_bps": 1000, "max_trading_offset_secs": p.offset, "extension": null}}),
+            Kind::Vending => json!({"params": {"code_id": minter, "allowed_sg721_code_ids": allowed, "frozen": p.frozen,
+                "creation_fee": coinv(p.fee, dn(p.fee_ibc)), "min_mint_price": coinv(p.min_price, dn(p.min_ibc)),
+                "mint_fee_bps": 1000, "max_trading_offset_secs": p.offset,
+                "extension": {"max_token_limit": p.max_tokens, "max_per_address_limit": p.max_pal,
+                    "airdrop_mint_price": coinv(p.airdrop_price, NATIVE), "airdrop_mint_fee_bps": 10000,
+                    "shuffle_fee": coinv(500, NATIVE)}}}),
+            Kind::Open => json!({"params": {"code_id": minter, "allowed_sg721_code_ids": allowed, "frozen": p.frozen,
+                "creation_fee": coinv(p.fee, dn(p.fee_ibc)), "min_mint_price": coinv(p.min_price, dn(p.min_ibc)),
+                "mint_fee_bps": 1000, "max_trading_offset_secs": p.offset,
+                "extension": {"max_token_limit": p.max_tokens, "max_per_address_limit": p.max_pal,
+                    "airdrop_mint_price": coinv(p.airdrop_price, dn(p.min_ibc)), "airdrop_mint_fee_bps": 100,
+                    "dev_fee_address": "devaddress"}}}),
+            Kind::TokenMerge => json!({"params": {"code_id": minter, "allowed_sg721_code_ids": allowed, "frozen": p.frozen,
+                "creation_fee": coinv(p.fee, dn(p.fee_ibc)), "max_trading_offset_secs": p.offset,
+                "max_token_limit": p.max_tokens, "max_per_address_limit": p.max_pal,
+                "airdrop_mint_price": coinv(p.airdrop_price, NATIVE), "airdrop_mint_fee_bps": 10000,
+                "shuffle_fee": coinv(500, NATIVE)}}),
+        }
+    }
+
+    fn update_json(kind: Kind, p: &Params) -> Value {
+        let common = json!({"code_id": null, "add_sg721_code_ids": null, "rm_sg721_code_ids": null,
+            "frozen": p.frozen, "creation_fee": coinv(p.fee, dn(p.fee_ibc)), "max_trading_offset_secs": p.offset});
+        let mut m = common.as_object().unwrap().clone();
+        match kind {
+            Kind::Base => {
+                m.insert("min_mint_price".into(), if p.min_ibc { Value::Null } else { coinv(p.min_price, NATIVE) });
+                m.insert("mint_fee_bps".into(), Value::Null);
+                m.insert("extension".into(), Value::Null);
+            }
+            Kind::Vending => {
+                m.insert("min_mint_price".into(), if p.min_ibc { Value::Null } else { coinv(p.min_price, NATIVE) });
+                m.insert("mint_fee_bps".into(), Value::Null);
+                m.insert(
+                    "extension".into(),
+                    json!({"max_token_limit": p.max_tokens, "max_per_address_limit": p.max_pal,
+                        "airdrop_mint_price": coinv(p.airdrop_price, NATIVE), "airdrop_mint_fee_bps": null, "shuffle_fee": null}),
+                );
+            }
+            Kind::Open => {
+                m.insert("min_mint_price".into(), if p.min_ibc { Value::Null } else { coinv(p.min_price, NATIVE) });
+                m.insert("mint_fee_bps".into(), Value::Null);
+                m.insert(
+                    "extension".into(),
+                    json!({"max_token_limit": p.max_tokens, "max_per_address_limit": p.max_pal, "min_mint_price": null,
+                        "airdrop_mint_fee_bps": null,
+                        "airdrop_mint_price": if p.min_ibc { Value::Null } else { coinv(p.airdrop_price, NATIVE) },
+                        "dev_fee_address": null}),
+                );
+            }
+            Kind::TokenMerge => {
+                m.insert(
+                    "extension".into(),
+                    json!({"max_token_limit": p.max_tokens, "max_per_address_limit": p.max_pal,
+                        "airdrop_mint_price": coinv(p.airdrop_price, NATIVE), "airdrop_mint_fee_bps": null, "shuffle_fee": null}),
+                );
+            }
+        }
+        json!({"update_params": Value::Object(m)})
+    }
+
+    fn instantiate(&mut self, code: &str, msg: &Value, funds: &[Coin]) -> Result<Addr, String> {
+        let id = self.codes[code];
+        let r = crate::util::catch(|| self.app.instantiate_contract(id, Addr::unchecked(CREATOR), msg, funds, code, None));
+        match r {
+            Ok(Ok(a)) => {
+                self.n_contracts += 1;
+                self.addrs.id(a.as_str());
+                Ok(a)
+            }
+            Ok(Err(e)) => Err(format!("{:#}", e)),
+            Err(p) => Err(p),
+        }
+    }
+}
+
+fn gparams_coq(w: &mut World, kind: Kind, factory: &Addr) -> (String, Value) {
+    let p = w.app.wrap().query_wasm_smart::<Value>(factory.clone(), &json!({"params": {}})).unwrap()["params"].clone();
+    let s = |v: &Value| v.as_str().unwrap().to_string();
+    let allowed: Vec<String> = p["allowed_sg721_code_ids"].as_array().unwrap().iter().map(|x| x.to_string()).collect();
+    let fee_d = w.denoms.id(&s(&p["creation_fee"]["denom"]));
+    let (minp, mind) = match kind {
+        Kind::TokenMerge => ("0".to_string(), 0),
+        _ => (s(&p["min_mint_price"]["amount"]), w.denoms.id(&s(&p["min_mint_price"]["denom"]))),
+    };
+    let ext = match kind {
+        Kind::TokenMerge => p.clone(),
+        _ => p["extension"].clone(),
+    };
+    let (maxt, maxp, air) = match kind {
+        Kind::Base => ("0".to_string(), "0".to_string(), "0".to_string()),
+        _ => (ext["max_token_limit"].to_string(), ext["max_per_address_limit"].to_string(), s(&ext["airdrop_mint_price"]["amount"])),
+    };
+    (
+        format!(
+            "(mkGP {} {} {} {} {} {} {} {} {} {} {})",
+            p["code_id"],
+            coq_list(&allowed),
+            coq_bool(p["frozen"].as_bool().unwrap()),
+            s(&p["creation_fee"]["amount"]),
+            fee_d,
+            minp,
+            mind,
+            p["max_trading_offset_secs"],
+            maxt,
+            maxp,
+            air
+        ),
+        p,
+    )
+}
+
+pub struct Outcome {
+    pub coq: String,
+    pub ok: bool,
+    pub violations: Vec<(String, String)>,
+    pub hist_key: String,
+}
+
+fn tracked(w: &World, factory: &Addr) -> Vec<String> {
+    vec![CREATOR.into(), PAYER.into(), factory.to_string(), FOUNDATION.into(), LAUNCHPAD_DAO.into(), LIQUIDITY_DAO.into(), chain::FAIRBURN_POOL.into()]
+}
+fn balances(w: &mut World, factory: &Addr, supply0: &BTreeMap<String, u128>) -> (String, BTreeMap<(String, String), u128>) {
+    let mut items = vec![];
+    let mut raw = BTreeMap::new();
+    for a in tracked(w, factory) {
+        for d in [NATIVE, IBC] {
+            let b = chain::balance(&w.app, &a, d);
+            items.push(format!("({}, {}, {})", w.addrs.id(&a), w.denoms.id(d), b));
+            raw.insert((a.clone(), d.to_string()), b);
+        }
+    }
+    for d in [NATIVE, IBC] {
+        let burned = supply0[d] - chain::supply(&w.app, d);
+        items.push(format!("(5, {}, {})", w.denoms.id(d), burned));
+        raw.insert(("#burned".into(), d.to_string()), burned);
+    }
+    (coq_list(&items), raw)
+}
+
+pub fn run_case(c: &Case) -> Outcome {
+    let mut w = World::new();
+    let kind = c.kind;
+    let fname = match kind {
+        Kind::Base => "base-factory",
+        Kind::Vending => "vending-factory",
+        Kind::Open => "open-edition-factory",
+        Kind::TokenMerge => "token-merge-factory",
+    };
+    let hist_key = format!("{}/{}", fname, World::minter_code_name(kind, c.code));
+    let mut viol = vec![];
+    // a source collection for token-merge requirements and a whitelist for the request
+    let pj = w.params_json(kind, c.code, &c.params);
+    let factory = w.instantiate(fname, &pj, &[]).expect("factory instantiate");
+    for u in &c.updates {
+        let _ = chain::sudo(&mut w.app, &factory, &World::update_json(kind, u));
+    }
+    let now = chain::now(&w.app);
+    let wl_addr: Option<Addr> = match c.req.wl {
+        None => None,
+        Some(active) => {
+            // an active whitelist started a moment ago; an inactive one starts later
+            let (code, members) = if kind == Kind::Vending && (c.code % 6 == 2 || c.code % 6 == 3) || kind == Kind::Open && c.code % 3 == 1 {
+                ("whitelist-flex", json!([{"address": CREATOR, "mint_count": 1}]))
+            } else {
+                ("whitelist", json!([CREATOR]))
+            };
+            let start = now + 10 * S;
+            let mut msg = json!({"members": members, "start_time": start.to_string(), "end_time": (now + 100_000 * S).to_string(),
+                "mint_price": coinv(c.params.min_price.max(1), dn(c.params.min_ibc)), "member_limit": 10, "admins": [CREATOR], "admins_mutable": true});
+            if code == "whitelist" {
+                msg["per_address_limit"] = json!(1);
+            } else {
+                msg["whale_cap"] = Value::Null;
+            }
+            let a = w.instantiate(code, &msg, &[coin(100_000_000, NATIVE)]).expect("whitelist");
+            if active {
+                chain::set_time(&mut w.app, start + 1);
+            }
+            Some(a)
+        }
+    };
+    let now = chain::now(&w.app);
+    let (gp, praw) = gparams_coq(&mut w, kind, &factory);
+    let supply0: BTreeMap<String, u128> = [NATIVE, IBC].iter().map(|d| (d.to_string(), chain::supply(&w.app, d))).collect();
+    let r = &c.req;
+    let start = (now as i128 + r.start_in as i128) as u64;
+    let end = r.end_in.map(|e| (now as i128 + e as i128) as u64);
+    let trading = r.trading_in.map(|e| (now as i128 + e as i128) as u64);
+    let coll_code = if r.coll_code_allowed { w.codes["sg721-base"] } else { w.codes["sg721-nt"] };
+    let coll = json!({"code_id": coll_code, "name": "Collection", "symbol": "COL",
+        "info": {"creator": CREATOR, "description": "d", "image": "https://example.com/image.png",
+                 "external_link": "https://example.com/external.html", "explicit_content": false,
+                 "start_trading_time": trading.map(|t| t.to_string()),
+                 "royalty_info": {"payment_address": CREATOR, "share": if r.coll_ok { "0.1" } else { "1.5" }}}});
+    let uri = if r.uri_ok { "ipfs://bafybeigi3bwpvyvsmnbj46ra4hyffcxdeaj6ntfk5jpic5mx27x6ih2qvq/images" } else { "not a url" };
+    let init = match kind {
+        Kind::Base => Value::Null,
+        Kind::Vending => json!({"base_token_uri": uri, "payment_address": null, "start_time": start.to_string(),
+            "num_tokens": r.num_tokens.unwrap_or(0), "mint_price": coinv(r.price, dn(r.price_ibc)),
+            "per_address_limit": r.pal, "whitelist": wl_addr.as_ref().map(|a| a.to_string())}),
+        Kind::Open => json!({"nft_data": {"nft_data_type": "off_chain_metadata", "extension": null,
+                "token_uri": if r.nft_ok { Some(uri) } else { None }},
+            "start_time": start.to_string(), "end_time": end.map(|e| e.to_string()),
+            "mint_price": coinv(r.price, dn(r.price_ibc)), "per_address_limit": r.pal, "num_tokens": r.num_tokens,
+            "payment_address": null, "whitelist": wl_addr.as_ref().map(|a| a.to_string())}),
+        Kind::TokenMerge => json!({"base_token_uri": uri, "start_time": start.to_string(),
+            "num_tokens": r.num_tokens.unwrap_or(0), "mint_tokens": [{"collection": "contract0", "amount": 1}],
+            "per_address_limit": r.pal}),
+    };
+    let msg = json!({"create_minter": {"init_msg": init, "collection_params": coll}});
+    let funds: Vec<Coin> = r.funds.iter().map(|(d, a)| coin(*a, d.clone())).collect();
+    let (bal0, raw0) = balances(&mut w, &factory, &supply0);
+    let digest0 = chain::storage_digest(&w.app, &factory);
+    let n_before = w.n_contracts;
+    let new_minter = format!("contract{}", n_before);
+    let new_coll = format!("contract{}", n_before + 1);
+    let res = chain::exec(&mut w.app, PAYER, &factory, &msg, &funds);
+    let ok = res.is_ok();
+    let minter_exists = w.app.contract_data(&Addr::unchecked(&new_minter)).is_ok();
+    let coll_exists = w.app.contract_data(&Addr::unchecked(&new_coll)).is_ok();
+    let third_exists = w.app.contract_data(&Addr::unchecked(format!("contract{}", n_before + 2))).is_ok();
+    let mut wiring: Vec<u64> = vec![];
+    let fee: u128 = praw["creation_fee"]["amount"].as_str().unwrap().parse().unwrap();
+    let fee_denom = praw["creation_fee"]["denom"].as_str().unwrap().to_string();
+    let (bal1, raw1) = balances(&mut w, &factory, &supply0);
+    if ok {
+        // ---- monitors: what must be true of the chain after a successful creation ----
+        if !(minter_exists && coll_exists) || third_exists {
+            viol.push(("C08:not-exactly-two-contracts".into(), format!("{}: creation ok but new contracts minter={} collection={} extra={}", hist_key, minter_exists, coll_exists, third_exists)));
+        }
+        if minter_exists && coll_exists {
+            let ma = Addr::unchecked(&new_minter);
+            let ca = Addr::unchecked(&new_coll);
+            w.addrs.id(&new_minter);
+            w.addrs.id(&new_coll);
+            let cfg = w.app.wrap().query_wasm_smart::<Value>(ma.clone(), &json!({"config": {}})).unwrap();
+            let (m_factory, m_admin, m_coll) = if kind == Kind::Base {
+                (cfg["config"]["factory"].as_str().unwrap().to_string(), None, cfg["collection_address"].as_str().unwrap().to_string())
+            } else {
+                (cfg["factory"].as_str().unwrap().to_string(), cfg["admin"].as_str().map(|s| s.to_string()), cfg["sg721_address"].as_str().unwrap().to_string())
+            };
+            let m_wasm_admin = w.app.contract_data(&ma).unwrap().admin.map(|a| a.to_string());
+            let c_wasm_admin = w.app.contract_data(&ca).unwrap().admin.map(|a| a.to_string());
+            let c_minter = w.app.wrap().query_wasm_smart::<Value>(ca.clone(), &json!({"minter": {}})).unwrap()["minter"].as_str().map(|s| s.to_string());
+            let info = w.app.wrap().query_wasm_smart::<Value>(ca.clone(), &json!({"collection_info": {}})).unwrap();
+            let c_creator = info["creator"].as_str().unwrap().to_string();
+            let c_trading: u64 = info["start_trading_time"].as_str().map(|s| s.parse().unwrap()).unwrap_or(0);
+            let idof = |w: &mut World, s: &Option<String>| s.as_ref().map(|x| w.addrs.id(x)).unwrap_or(0);
+            // base minter has no admin field: the creator mints (checked against the collection); use the creator
+            let admin_for_model = if kind == Kind::Base { Some(CREATOR.to_string()) } else { m_admin.clone() };
+            wiring = vec![
+                w.addrs.id(&m_factory),
+                idof(&mut w, &admin_for_model),
+                idof(&mut w, &m_wasm_admin),
+                idof(&mut w, &c_minter),
+                w.addrs.id(&c_creator),
+                idof(&mut w, &c_wasm_admin),
+                c_trading,
+            ];
+            if m_factory != factory.as_str() {
+                viol.push(("C08:minter-not-wired-to-factory".into(), format!("{}: minter.factory = {}", hist_key, m_factory)));
+            }
+            if m_coll != new_coll || c_minter.as_deref() != Some(new_minter.as_str()) {
+                viol.push(("C08:minter-collection-not-wired".into(), format!("{}: minter.collection = {}, collection.minter = {:?}", hist_key, m_coll, c_minter)));
+            }
+            if kind != Kind::Base && m_admin.as_deref() != Some(CREATOR) || c_creator != CREATOR {
+                viol.push(("C08:not-administered-by-creator".into(), format!("{}: minter admin {:?}, collection creator {}", hist_key, m_admin, c_creator)));
+            }
+        }
+        // the request was within bounds (documented rules, parameters in force)
+        let e = if kind == Kind::TokenMerge { praw.clone() } else { praw["extension"].clone() };
+        if praw["frozen"].as_bool().unwrap() {
+            viol.push(("C08:created-while-frozen".into(), format!("{}: creation succeeded on a frozen factory", hist_key)));
+        }
+        if !r.coll_code_allowed {
+            viol.push(("C08:code-id-not-allowed".into(), format!("{}: creation succeeded with a collection code id off the allow-list", hist_key)));
+        }
+        let paid_ok = r.funds.len() == 1 && r.funds[0].0 == fee_denom && r.funds[0].1 >= fee && (kind != Kind::Open || r.funds[0].1 == fee);
+        if !paid_ok {
+            viol.push(("C08:fee-not-attached".into(), format!("{}: creation succeeded with funds {:?}, fee {} {}", hist_key, r.funds, fee, fee_denom)));
+        }
+        if kind != Kind::Base {
+            let maxt = e["max_token_limit"].as_u64().unwrap() as u32;
+            let maxp = e["max_per_address_limit"].as_u64().unwrap() as u32;
+            if let Some(n) = r.num_tokens {
+                if n < 1 || n > maxt {
+                    viol.push(("C08:num-tokens-out-of-bounds".into(), format!("{}: num_tokens {} accepted, max {}", hist_key, n, maxt)));
+                }
+            } else if kind != Kind::Open {
+                viol.push(("C08:num-tokens-out-of-bounds".into(), format!("{}: missing num_tokens accepted", hist_key)));
+            }
+            if r.pal < 1 || r.pal > maxp {
+                viol.push(("C08:per-address-limit-out-of-bounds".into(), format!("{}: per_address_limit {} accepted, max {}", hist_key, r.pal, maxp)));
+            }
+            let three_pct_applies = kind == Kind::TokenMerge || kind == Kind::Vending && !(c.code % 6 == 2 || c.code % 6 == 3);
+            if three_pct_applies {
+                let n = r.num_tokens.unwrap_or(0) as u64;
+                let cap = if n < 100 { 3 } else { (n * 3 + 99) / 100 };
+                if r.pal as u64 > cap {
+                    viol.push(("C08:three-percent-rule".into(), format!("{}: per_address_limit {} accepted for {} tokens (cap {})", hist_key, r.pal, n, cap)));
+                }
+            }
+        }
+        if kind == Kind::Vending || kind == Kind::Open {
+            let minp: u128 = praw["min_mint_price"]["amount"].as_str().unwrap().parse().unwrap();
+            if r.price < minp || dn(r.price_ibc) != praw["min_mint_price"]["denom"].as_str().unwrap() {
+                viol.push(("C08:price-below-min-or-wrong-denom".into(), format!("{}: price {} {} accepted, min {}", hist_key, r.price, dn(r.price_ibc), praw["min_mint_price"])));
+            }
+        }
+        if kind == Kind::Open {
+            if r.start_in <= 0 {
+                viol.push(("C08:oe-start-not-future".into(), format!("{}: start {} ns from now accepted", hist_key, r.start_in)));
+            }
+            if let Some(e) = r.end_in {
+                if e <= r.start_in {
+                    viol.push(("C08:oe-end-not-after-start".into(), format!("{}: end {} <= start {}", hist_key, e, r.start_in)));
+                }
+            }
+            if r.end_in.is_none() && r.num_tokens.is_none() {
+                viol.push(("C08:oe-unbounded".into(), format!("{}: neither end time nor token cap", hist_key)));
+            }
+            if r.price == 0 && r.num_tokens.is_none() {
+                viol.push(("C08:oe-zero-price-without-cap".into(), format!("{}: zero price without a cap", hist_key)));
+            }
+        }
+        // fee disposal: never less than the fee, never more than was paid; payer pays exactly what it attached
+        let paid: u128 = r.funds.iter().map(|f| f.1).sum();
+        let d = |who: &str, den: &str| raw1[&(who.to_string(), den.to_string())] as i128 - raw0[&(who.to_string(), den.to_string())] as i128;
+        let out = if fee_denom == NATIVE { d("#burned", NATIVE) + d(chain::FAIRBURN_POOL, NATIVE) } else { d(LAUNCHPAD_DAO, &fee_denom) };
+        if out < fee as i128 || out > paid as i128 {
+            viol.push(("C08:fee-disposal-out-of-range".into(), format!("{}: fee {} paid {} disposed {}", hist_key, fee, paid, out)));
+        }
+        if fee_denom == NATIVE && (d("#burned", NATIVE) != (fee / 2) as i128 || d(chain::FAIRBURN_POOL, NATIVE) != (fee - fee / 2) as i128) {
+            viol.push(("C08:fee-split".into(), format!("{}: fee {} burned {} pool {}", hist_key, fee, d("#burned", NATIVE), d(chain::FAIRBURN_POOL, NATIVE))));
+        }
+        if d(PAYER, &fee_denom) != -(paid as i128) {
+            viol.push(("C08:payer-delta".into(), format!("{}: payer delta {} for payment {}", hist_key, d(PAYER, &fee_denom), paid)));
+        }
+    } else {
+        // rejection: nothing created, no funds moved, factory storage untouched
+        if minter_exists || coll_exists {
+            viol.push(("C08:contracts-left-after-rejection".into(), format!("{}: rejected but minter={} collection={}", hist_key, minter_exists, coll_exists)));
+        }
+        if raw0 != raw1 || chain::storage_digest(&w.app, &factory) != digest0 {
+            viol.push(("C08:rejection-moved-funds-or-state".into(), format!("{}: rejected creation changed balances or factory state", hist_key)));
+        }
+    }
+    let kind_coq = match kind {
+        Kind::Base => "FBase",
+        Kind::Vending => "FVending",
+        Kind::Open => "FOpen",
+        Kind::TokenMerge => "FTokenMerge",
+    };
+    let flex = kind == Kind::Vending && (c.code % 6 == 2 || c.code % 6 == 3);
+    let req_coq = format!(
+        "(mkReq {} {} {} {} {} {} {} {} {} {} {} {} {} {})",
+        coll_code,
+        w.addrs.id(CREATOR),
+        coq_opt_n(r.num_tokens.map(|x| x as u64)),
+        r.pal,
+        r.price,
+        w.denoms.id(dn(r.price_ibc)),
+        start,
+        coq_opt_n(end),
+        coq_opt_n(trading),
+        coq_bool(r.nft_ok),
+        coq_bool(r.uri_ok),
+        match r.wl {
+            None => "None".to_string(),
+            Some(b) => format!("(Some {})", coq_bool(b)),
+        },
+        coq_bool(flex),
+        coq_bool(r.coll_ok)
+    );
+    let funds_coq = coq_list(&r.funds.iter().map(|(d, a)| format!("mkCoin {} {}", w.denoms.id(d), a)).collect::<Vec<_>>());
+    let fid = w.addrs.id(factory.as_str());
+    let pid = w.addrs.id(PAYER);
+    let nm = w.addrs.id(&new_minter);
+    let coq = format!(
+        "(mkC08 {} {} {} {} {} {} {} {} {} {} {} {})",
+        kind_coq,
+        fid,
+        gp,
+        now,
+        pid,
+        funds_coq,
+        req_coq,
+        nm,
+        bal0,
+        coq_bool(ok),
+        coq_list(&wiring.iter().map(|x| x.to_string()).collect::<Vec<_>>()),
+        bal1
+    );
+    Outcome { coq, ok, violations: viol, hist_key: format!("{}:{}", hist_key, if ok { "ok" } else { "err" }) }
+}
+
+fn good_req(kind: Kind, p: &Params) -> Req {
+    let fee_d = dn(p.fee_ibc).to_string();
+    Req {
+        coll_code_allowed: true,
+        num_tokens: match kind {
+            Kind::Base => None,
+            _ => Some(100),
+        },
+        pal: 3,
+        price: p.min_price + 10,
+        price_ibc: p.min_ibc,
+        start_in: 1000 * S as i64,
+        end_in: if kind == Kind::Open { Some(5000 * S as i64) } else { None },
+        trading_in: None,
+        nft_ok: true,
+        uri_ok: true,
+        wl: None,
+        coll_ok: true,
+        funds: vec![(fee_d, p.fee)],
+    }
+}
+
+/// every request parameter at bound-1 / bound / bound+1 for one (kind, minter code, params)
+fn probes(kind: Kind, code: usize, p: &Params, updates: &[Params]) -> Vec<Case> {
+    let eff = updates.last().unwrap_or(p).clone();
+    let base = good_req(kind, &eff);
+    let mut v: Vec<Req> = vec![base.clone()];
+    let fd = dn(eff.fee_ibc).to_string();
+    let other = dn(!eff.fee_ibc).to_string();
+    // payments
+    for f in [
+        vec![],
+        vec![(fd.clone(), eff.fee.saturating_sub(1))],
+        vec![(fd.clone(), eff.fee + 1)],
+        vec![(other.clone(), eff.fee)],
+        vec![(fd.clone(), eff.fee), (other.clone(), 5)],
+    ] {
+        v.push(Req { funds: f, ..base.clone() });
+    }
+    v.push(Req { coll_code_allowed: false, ..base.clone() });
+    v.push(Req { coll_ok: false, ..base.clone() });
+    if kind != Kind::Base {
+        for n in [0, 1, eff.max_tokens - 1, eff.max_tokens, eff.max_tokens + 1, 99, 100, 101, 134] {
+            for pal in [1u32, 3, 4, 5] {
+                v.push(Req { num_tokens: Some(n), pal, ..base.clone() });
+            }
+        }
+        for pal in [0, 1, 2, eff.max_pal.saturating_sub(1), eff.max_pal, eff.max_pal + 1] {
+            v.push(Req { pal, num_tokens: Some(eff.max_tokens.min(1000)), ..base.clone() });
+        }
+        v.push(Req { uri_ok: false, ..base.clone() });
+    }
+    if kind == Kind::Vending || kind == Kind::Open {
+        for pr in [eff.min_price.saturating_sub(1), eff.min_price, eff.min_price + 1, 0] {
+            v.push(Req { price: pr, ..base.clone() });
+        }
+        v.push(Req { price_ibc: !eff.min_ibc, ..base.clone() });
+        v.push(Req { wl: Some(false), ..base.clone() });
+        v.push(Req { wl: Some(true), ..base.clone() });
+    }
+    if kind != Kind::Base {
+        // start time around now / genesis is earlier than the chain clock, so only "now" matters
+        for st in [-1i64, 0, 1] {
+            v.push(Req { start_in: st, end_in: base.end_in.map(|_| 5000 * S as i64), ..base.clone() });
+        }
+        // trading time around the bound start + offset
+        let bound = base.start_in + (eff.offset as i64).saturating_mul(S as i64);
+        for t in [bound - 1, bound, bound + 1, 0, -1] {
+            v.push(Req { trading_in: Some(t), ..base.clone() });
+        }
+    } else {
+        for t in [0i64, -1, 1, 1_000_000] {
+            v.push(Req { trading_in: Some(t), ..base.clone() });
+        }
+    }
+    if kind == Kind::Open {
+        for e in [base.start_in - 1, base.start_in, base.start_in + 1] {
+            v.push(Req { end_in: Some(e), ..base.clone() });
+        }
+        v.push(Req { end_in: None, num_tokens: None, ..base.clone() });
+        v.push(Req { end_in: None, num_tokens: Some(10), ..base.clone() });
+        v.push(Req { end_in: Some(5000 * S as i64), num_tokens: None, ..base.clone() });
+        v.push(Req { end_in: Some(5000 * S as i64), num_tokens: None, price: 0, ..base.clone() });
+        v.push(Req { nft_ok: false, ..base.clone() });
+    }
+    v.into_iter().map(|req| Case { kind, code, params: p.clone(), updates: updates.to_vec(), req }).collect()
+}
+
+fn gen_cases(a: &Args) -> Vec<Case> {
+    let mut rng = Rng::new(a.seed);
+    let mut v = vec![];
+    let kinds: Vec<(Kind, usize)> = {
+        let mut k = vec![(Kind::Base, 0), (Kind::TokenMerge, 0)];
+        for i in 0..6 {
+            k.push((Kind::Vending, i));
+        }
+        for i in 0..3 {
+            k.push((Kind::Open, i));
+        }
+        k
+    };
+    let d = Params::default();
+    for (kind, code) in &kinds {
+        // default parameters: the full probe set
+        v.extend(probes(*kind, *code, &d, &[]));
+        // after governance updates (bounds moved), frozen / unfrozen, non-native fee and price denoms
+        let moved = Params { max_tokens: 120, max_pal: 4, min_price: 77, fee: 6001, offset: 3600, ..d.clone() };
+        let mut sub = probes(*kind, *code, &d, &[moved.clone()]);
+        let frozen = Params { frozen: true, ..d.clone() };
+        sub.extend(probes(*kind, *code, &d, &[frozen.clone()]).into_iter().take(3));
+        sub.extend(probes(*kind, *code, &d, &[frozen, d.clone()]).into_iter().take(3));
+        let ibcfee = Params { fee_ibc: true, ..d.clone() };
+        sub.extend(probes(*kind, *code, &ibcfee, &[]).into_iter().take(8));
+        if *kind == Kind::Vending || *kind == Kind::Open {
+            let ibcmin = Params { min_ibc: true, airdrop_price: 10, ..d.clone() };
+            sub.extend(probes(*kind, *code, &ibcmin, &[]).into_iter().take(8));
+            let zero_airdrop = Params { airdrop_price: 0, ..d.clone() };
+            let pos_airdrop = Params { airdrop_price: 10, ..d.clone() };
+            sub.extend(probes(*kind, *code, &pos_airdrop, &[]).into_iter().rev().take(8));
+            sub.extend(probes(*kind, *code, &zero_airdrop, &[]).into_iter().rev().take(8));
+        }
+        if a.thorough() {
+            v.extend(sub);
+        } else {
+            // quick tier: a seeded half of the secondary probes
+            for c in sub {
+                if rng.chance(1, 2) {
+                    v.push(c);
+                }
+            }
+        }
+    }
+    // random requests
+    let nrand = if a.thorough() { 1500 } else { 150 };
+    for _ in 0..nrand {
+        let (kind, code) = *rng.pick(&kinds);
+        let p = Params {
+            frozen: rng.chance(1, 12),
+            fee: *rng.pick(&[1u128, 2, 3, 5000, 5001, 1 << 70]),
+            fee_ibc: rng.chance(1, 5),
+            min_price: *rng.pick(&[0u128, 1, 50, 1 << 90]),
+            min_ibc: rng.chance(1, 5),
+            offset: *rng.pick(&[0u64, 1, 604800, 18446744073, 18446744074]),
+            max_tokens: *rng.pick(&[1u32, 99, 100, 1000]),
+            max_pal: *rng.pick(&[1u32, 3, 4, 50]),
+            airdrop_price: *rng.pick(&[0u128, 7]),
+        };
+        let mut req = good_req(kind, &p);
+        req.num_tokens = if kind == Kind::Base { None } else if rng.chance(1, 8) { None } else { Some(rng.range(0, p.max_tokens as u64 + 1) as u32) };
+        req.pal = rng.range(0, p.max_pal as u64 + 1) as u32;
+        req.price = match rng.below(4) {
+            0 => p.min_price.saturating_sub(1),
+            1 => p.min_price,
+            _ => p.min_price.saturating_add(rng.below(1000) as u128),
+        };
+        if rng.chance(1, 10) {
+            req.price_ibc = !req.price_ibc;
+        }
+        if rng.chance(1, 6) {
+            req.funds = vec![(dn(p.fee_ibc).to_string(), p.fee.saturating_add(rng.below(3) as u128).saturating_sub(1))];
+        }
+        if rng.chance(1, 6) {
+            req.trading_in = Some(rng.below(2_000_000) as i64 * S as i64);
+        }
+        if kind == Kind::Open && rng.chance(1, 3) {
+            req.end_in = if rng.chance(1, 2) { None } else { Some(req.start_in + rng.below(3) as i64 - 1) };
+        }
+        v.push(Case { kind, code, params: p, updates: vec![], req });
+    }
+    v
+}
+
+pub fn run(a: &Args) {
+    let out = OutDir::new(&a.out);
+    let mut rep = Report { property: "C08".into(), tier: a.tier.clone(), seed: a.seed, ..Default::default() };
+    let cases: Vec<Case> = if let Some(p) = &a.replay {
+        #[derive(Deserialize)]
+        struct ReplayFile {
+            case: Case,
+        }
+        let rf: ReplayFile = serde_json::from_str(&std::fs::read_to_string(p).expect("replay file")).expect("replay json");
+        vec![rf.case]
+    } else {
+        gen_cases(a)
+    };
+    let mut coq_cases = vec![];
+    let mut nviol = 0;
+    let mut distinct = BTreeSet::new();
+    for (i, c) in cases.iter().enumerate() {
+        let o = run_case(c);
+        rep.evaluations += 1;
+        rep.bump(&o.hist_key);
+        if o.ok {
+            distinct.insert(serde_json::to_string(c).unwrap());
+        }
+        for (key, what) in o.violations.iter().take(2) {
+            nviol += 1;
+            if nviol <= 20 {
+                let body = format!(
+                    "{{\n \"property\": \"C08\",\n \"case\": {},\n \"violation\": {}\n}}\n",
+                    serde_json::to_string(c).unwrap(),
+                    serde_json::to_string(what).unwrap()
+                );
+                let path = out.write_replay(&format!("C08-{}.json", nviol), &body);
+                rep.violations.push(Violation { key: key.clone(), what: what.clone(), replay: path });
+            }
+        }
+        if rep.samples.len() < 3 && i % 211 == 3 {
+            rep.samples.push(serde_json::json!({"case": serde_json::to_value(c).unwrap_or(Value::Null), "ok": o.ok}));
+        }
+        coq_cases.push(o.coq);
+    }
+    rep.distinct_nontrivial = distinct.len() as u64;
+    rep.rule = "CreateMinter on base / vending (x6 minter codes) / open-edition (x3) / token-merge factories: every request parameter at bound-1/bound/bound+1 against default parameters and after sudo updates, freeze/unfreeze, non-native fee and price denoms; payments none/short/exact/over/wrong denom/two coins; plus seeded random requests. Non-trivial = distinct request that created a minter.".into();
+    out.write_cases("C08", "From LP Require Import Num Pay Sg1 Bank MinterVending Factory C08Corr.", "c08_case", "c08_check", &coq_cases, 6, &mut rep);
+    out.finish(&rep);
+    println!("C08 harness: {} cases, {} monitor violations", rep.evaluations, nviol);
 }
